@@ -1,5 +1,6 @@
 import IastModel.Lemmas.Master
 import IastModel.Rewriter.Rewrite
+import IastModel.Lemmas.CnMaster
 /-
   C15 — reported metrics.  Read-out part (src/telemetry.rs, `get_metrics`): the three telemetry
   implementations as a function of the list of `inc` calls.
@@ -55,5 +56,18 @@ theorem reported_count_is_hook_sites (cfg : Config) (fuel : Nat) (p : Node)
 /-- non-vacuity: a program that satisfies the hypotheses and is instrumented -/
 example : ns (Node.exprStmt (.bin "+" (.ident (.user "a") ⟨0, 1⟩) (.ident (.user "b") ⟨4, 5⟩) ⟨0, 5⟩) ⟨0, 5⟩) = 0 := by
   decide +kernel
+
+
+/-- **C15 (per-operation breakdown).**  For every replacement name `d`: the number of
+    `_ddiast.d(…)` call sites of the output equals the number of telemetry entries whose tag stands for
+    `d` (`+` and `+=` for the plus operator, `Tpl` for the template operator, a method's source name
+    for its replacement name) — so the per-tag debug counts partition the reported number by operation.
+    Whole pipeline, every configuration in which no method is named like an operator tag
+    (`CfgTagsOk`), every fuel and program (hypotheses as in `master`), unless refused. -/
+theorem debug_counts_partition_hook_sites (cfg : Config) (fuel : Nat) (p : Node)
+    (h0 : ns p = 0) (ht : targetsOk p = true) (hct : CfgTagsOk cfg)
+    (hnc : (transformProgram cfg fuel p).status ≠ .cancelled) (d : String) :
+    countStr (hookNames (transformProgram cfg fuel p).out) d = countTags cfg d (transformProgram cfg fuel p).incs :=
+  tags_partition_hooks_master cfg fuel p h0 ht hct hnc d
 
 end IastModel.C15
